@@ -10,11 +10,11 @@ QUICK_SHARDS = 8
 THOROUGH_SHARDS = 16
 
 
-def native(prop, spec, tier, seed, v, binname=None, hooks=True, lane="native", extra=()):
+def native(prop, spec, tier, seed, v, binname=None, hooks=True, lane="native", extra=(), release_checked=False):
     binname = binname or prop.lower()
     if prop == "C01":
         n, unparsed = gen_constants.generate()
-    binpath = C.build_monitor(binname, hooks=hooks)
+    binpath = C.build_monitor(binname, hooks=hooks, release_checked=release_checked)
     nsh = QUICK_SHARDS if tier == "quick" else THOROUGH_SHARDS
     extra = list(extra)
     if tier == "thorough" and spec.get("thorough_scale") and not os.environ.get("VERIF_SCALE"):
@@ -23,6 +23,14 @@ def native(prop, spec, tier, seed, v, binname=None, hooks=True, lane="native", e
         extra += ["--qscale", str(spec["quick_scale"])]
     reports = C.run_shards(binpath, prop, tier, seed, nsh, extra=extra, tag=lane)
     v.add_native(C.merge_reports(reports), lane=lane)
+
+
+def native_both_profiles(prop, spec, tier, seed, v):
+    """debug build (debug_assertions on, dim_check_debug) and release build with dim_check_release: dimension
+    checking is 'enabled' in both, so the property must hold in both (a check turned into debug_assert! or a
+    debug-only branch shows in exactly one of them)."""
+    native(prop, spec, tier, seed, v, lane="native")
+    native(prop, spec, tier, seed + 1000003, v, lane="release-checked", release_checked=True)
 
 
 def on_crash(prop, spec, tier, seed, e):
@@ -102,42 +110,42 @@ def setup():
 EXPL = "exploration"
 PROPS = {
     "C01": dict(
-        quick_scale=10, thorough_scale=20, run=native, level=EXPL, technique="runtime oracle on exhaustive 49x49 unit grid + seeded random operands (reference = integer exponent model and raw f32 operator)",
+        quick_scale=10, thorough_scale=20, run=native_both_profiles, level=EXPL, technique="runtime oracle on exhaustive 49x49 unit grid + seeded random operands (reference = integer exponent model and raw f32 operator)",
         rule="enumerate every ordered pair of the 49 grid units x every Unit/Quantity operator form (and every mixed Time/DimensionlessInteger cell x 49 units) with fresh random finite values, plus random exponents up to |60|; a case is distinct by (sub-check, lhs exponents, rhs exponents) / constant name / conversion unit",
         assumptions=["harness built in debug profile so dimension checking is compiled in (asserted at run time via size_of::<Unit>() != 0)",
                      "a panic is observed as an unwind through catch_unwind",
                      "expected exponents of named constants are parsed from the constant's NAME by lib/gen_constants.py"],
     ),
     "C05": dict(
-        quick_scale=2, thorough_scale=6, run=native, level=EXPL, technique="metamorphic runtime monitor over scripted fault histories (error provenance, reset==fresh-instance, None-deletion, get-purity; bit-exact between runs of the real code)",
+        quick_scale=2, thorough_scale=6, run=native_both_profiles, level=EXPL, technique="metamorphic runtime monitor over scripted fault histories (error provenance, reset==fresh-instance, None-deletion, get-purity; bit-exact between runs of the real code)",
         rule="per stream type (14 incl. f32/Quantity variants) seeded histories of length <=48 over {present, absent, Err(1), Err(2)} from four grammar styles (iid, runs separated by resets, noise, reset followed by >=3 present), CommandPID also set(same/other value/other kind), freeze also condition {true,false,absent}; distinct = (stream, set of adjacent event-kind pairs, length class)",
         assumptions=["reset table per stream taken from the property anchors (PID/Integral/Derivative: None+Err; CommandPID: None+Err+set(different); EWMA/MovingAverage/to-state: Err, None ignored; Float/Quantity converters: every update)",
                      "freeze is not driven with an erroring condition getter (statement silent); after cond=absent then cond=true both absent and the last passed value are accepted",
                      "timestamps strictly increasing for PID/CommandPID/integral/derivative/to-state, non-decreasing for the filters"],
     ),
     "C04": dict(
-        quick_scale=10, thorough_scale=15, run=native, level=EXPL, technique="runtime reference-model monitor (f64 textbook PID with forward error bound) + bit-exact metamorphic relations + differential against the controller assembled from the crate's own streams",
+        quick_scale=10, thorough_scale=15, run=native_both_profiles, level=EXPL, technique="runtime reference-model monitor (f64 textbook PID with forward error bound) + bit-exact metamorphic relations + differential against the controller assembled from the crate's own streams",
         rule="seeded histories of length <=64 from the grammar run((absent|error)+ run)* with run lengths 1,2,3,4-9,10-39, intervals log-uniform 1us..10h (every third history constant-interval), gains/setpoint/samples stratified in +-1e4 incl. zeros; distinct = (set of run-length classes, set of interval decades, absent count class, error count class)",
         assumptions=["strictly increasing timestamps by construction (dt=0 is outside the quantifier)",
                      "forward bound (40+4n)*2^-24*(|kp e| + |ki| sum|addend| + |kd|(|e|+|e_prev|)/dt), n = samples in the run; largest observed ratio is reported as reference_err_over_bound",
                      "the assembled controller updates every node at every step (examples/pid.rs stops at the first erroring node, which would leave the derivative stream unreset)"],
     ),
     "C10": dict(
-        quick_scale=10, thorough_scale=25, run=native, level=EXPL, technique="runtime reference-model monitor (f64 trapezoid sums / difference quotients with propagated forward error bound), unit probing, panic capture, bit-exact shift metamorphic relation",
+        quick_scale=10, thorough_scale=25, run=native_both_profiles, level=EXPL, technique="runtime reference-model monitor (f64 trapezoid sums / difference quotients with propagated forward error bound), unit probing, panic capture, bit-exact shift metamorphic relation",
         rule="per stream (integral, derivative, three to-state converters) seeded histories of <=64 events with strictly increasing stamps (intervals 1us..2h, a quarter constant-interval), four non-linear signal shapes (random walk, sinusoid, steps, white), interleaved absent/error events; integral/derivative input unit drawn from the 7x7 grid; distinct = (stream, input unit, position of the sample in its run) ; plus exhaustive 3 converters x 49 units x offending-sample position for the panic clause",
         assumptions=["double quantities follow the staging the code documents (second integral / difference starts at the first sample where the first one exists)",
                      "forward bound (48+8n)*2^-24*(propagated sum of |terms|), n = samples in the run; largest observed ratio reported per stream/component",
                      "dimension checking compiled in (debug build) for the panic clause"],
     ),
     "C12": dict(
-        quick_scale=4, thorough_scale=30, run=native, level=EXPL, technique="runtime reference-model monitor (exact i64 window weights + f64 weighted average; one-step EWMA law with the crate's own powf), panic capture, bit-exact f32-vs-Quantity differential",
+        quick_scale=4, thorough_scale=30, run=native_both_profiles, level=EXPL, technique="runtime reference-model monitor (exact i64 window weights + f64 weighted average; one-step EWMA law with the crate's own powf), panic capture, bit-exact f32-vs-Quantity differential",
         rule="seeded histories of <=64 events (present with non-decreasing, 15% repeated, stamps; absent; two errors), steps 1ns..1h, windows 1ns..10h incl. windows shorter than a step and longer than the history, smoothing in {0,1,2^-k,U(0,1)}, every 7th history constant-valued; all four filter variants driven by the same history; distinct = (set of window occupancies seen, window decade, smoothing quartile, has-error, has-absent)",
         assumptions=["non-decreasing timestamps and positive windows only (negative dt / non-positive windows are outside the quantifier)",
                      "EWMA checked one step at a time against prev*(1-L)+new*L with prev = the stream's own previous output and L = 1 - powf(1-s, dt) using the crate's powf obtained through ExponentStream; bound 24*2^-24*(|prev|+|new|)",
                      "moving average bound (48+8n)*2^-24*sum(w_i|x_i|)/W, n = samples in the window; first sample within 4 ulp (x*W/W is two roundings)"],
     ),
     "C11": dict(
-        quick_scale=20, thorough_scale=50, run=native, level=EXPL, technique="runtime reference-model monitor (f64 staged PID / integral / double-integral state machine with propagated forward bound) + bit-exact twin instance for set(same)",
+        quick_scale=20, thorough_scale=50, run=native_both_profiles, level=EXPL, technique="runtime reference-model monitor (f64 staged PID / integral / double-integral state machine with propagated forward bound) + bit-exact twin instance for set(same)",
         rule="seeded histories of <=48 steps; each step optionally issues set(command) {same, same kind other value, other kind} or changes the followed command getter {command, absent, error} (every third history follows a getter), then feeds a state sample / absent / error and updates; distinct gains per kind; distinct = (command kind, sample index since restart, following?, set of restart causes seen so far)",
         assumptions=["staging mirrored from the documentation: I and D of the error start at the 2nd sample of a run, integral of u from the 2nd, double integral from the 3rd",
                      "forward bound (64+12n)*2^-24*(propagated sum of |terms|); largest observed ratio per kind reported",
@@ -145,20 +153,20 @@ PROPS = {
                      "the error-reported clause is checked on the get() immediately after the erroring update only"],
     ),
     "C06": dict(
-        quick_scale=20, thorough_scale=25, run=native, level=EXPL, technique="runtime consistency monitor across the six accessors of the same object (presence/mode table, bit-identity of history vs accessor), boundaries recovered by bisection of get_piece, monotonicity of pieces monitored on sorted query times",
+        quick_scale=20, thorough_scale=25, run=native_both_profiles, level=EXPL, technique="runtime consistency monitor across the six accessors of the same object (presence/mode table, bit-identity of history vs accessor), boundaries recovered by bisection of get_piece, monotonicity of pieces monitored on sorted query times",
         rule="seeded profiles (positions +-1e4, limits log-uniform 1e-2..1e3, start/end speeds inside and outside the limit, zero/non-zero end velocity and acceleration => all three end-command kinds, forward and reversed moves, geometry comfortably feasible / around the feasibility edge / arbitrary; a constructor panic is an allowed outcome) x query times {i64 extremes, -1,0,1, each recovered boundary +-2 ns, 48 (quick) / 256 (thorough) random times in [0,2*t3]}; distinct = (direction, end-command kind, set of non-empty phases, decade of t3, signs of start/end velocity)",
         assumptions=["boundaries t1..t3 are private: they are recovered from get_piece by bisection on [0,2^62] and the direct reads are cross-checked against them",
                      "velocity/position presence before t=0 is not constrained (statement only constrains mode, acceleration, history there)"],
     ),
     "C07": dict(
-        quick_scale=4, thorough_scale=20, run=native, level=EXPL, technique="runtime reference-model monitor (f64 trapezoid from the inputs and the recovered boundaries, forward error bound), Simpson integral relation between accessors, bit-exact mirror metamorphic relation, acceptance oracle for comfortably feasible moves",
+        quick_scale=4, thorough_scale=20, run=native_both_profiles, level=EXPL, technique="runtime reference-model monitor (f64 trapezoid from the inputs and the recovered boundaries, forward error bound), Simpson integral relation between accessors, bit-exact mirror metamorphic relation, acceptance oracle for comfortably feasible moves",
         rule="same seeded profile generator as C06 (60% comfortably feasible by construction: speeds = max_vel*u with |u|<=1 and displacement >= 1.05*(accel+decel distance)+1e-3), each accepted profile queried at boundary +-2 ns times plus 96 (quick) / 512 (thorough) random times inside the move; distinct = (direction, set of non-empty phases, decade of t3, sign of start velocity, end velocity non-zero, comfortable)",
         assumptions=["reference built from the recovered ns boundaries so their truncation is not charged as error; forward bound 48*2^-24*sum|terms| with the term magnitudes of the closed forms (|p0|,|v0 t|,|a t1 t|,|a t^2| ...); largest observed ratios reported",
                      "mirror relation negates whole states (position, velocity and acceleration) and is checked only for non-zero displacement (sign tie-break at dp=0 is legitimate)",
                      "arrival is decided on the reference trajectory evaluated at the recovered t3 against the end state"],
     ),
     "C02": dict(
-        run=native, level=EXPL, technique="exhaustive shape enumeration with random payloads; bit-exact doc-derived oracle per combinator; cross-checks Sum2 vs SumStream<2>, Product2 vs ProductStream<2>, De Morgan both directions, purity over three reads; panic capture",
+        run=native_both_profiles, level=EXPL, technique="exhaustive shape enumeration with random payloads; bit-exact doc-derived oracle per combinator; cross-checks Sum2 vs SumStream<2>, Product2 vs ProductStream<2>, De Morgan both directions, purity over three reads; panic capture",
         rule="for each of the 16 combinators every shape is enumerated completely: outcome code of every input (Err(1), Err(2), None, Some; booleans Some(false)/Some(true)) x every weak ordering < = > of the present inputs' timestamps, arities 1..=5 of SumStream/ProductStream/Latest, payloads f32 and Quantity; Expirer adds clock state x age-vs-limit < = > x 4 limit strata, NoneToValue clock state x clock-vs-input order; each shape gets random finite values per (seed, sub, case) and get() is called three times; distinct = (combinator, payload, outcome vector, timestamp-order class)",
         assumptions=["errors dominate everywhere except Latest, earliest input first; the time getter counts as the last input",
                      "both readings accepted where the docs are silent: Expirer(None input, clock Err) may be None or that error; NoneToValue(Some input, clock Err) may be the input or that error; Latest ties accept any maximal-stamp input",
@@ -166,7 +174,7 @@ PROPS = {
                      "Expirer times kept below 2^61 (the crate subtracts them); i64 extremes only where stamps are merely compared"],
     ),
     "C03": dict(
-        thorough_scale=10, run=native, level=EXPL, technique="exhaustive enumeration over anchor timestamp pairs x operator form x payload plus stratified random; integer max/argmax oracle; bit-identity for selections; before/after terminal snapshots for devices; panic capture",
+        thorough_scale=10, run=native_both_profiles, level=EXPL, technique="exhaustive enumeration over anchor timestamp pairs x operator form x payload plus stratified random; integer max/argmax oracle; bit-identity for selections; before/after terminal snapshots for devices; panic capture",
         rule="every Datum operator impl in src/datum.rs over all 15x15 ordered pairs of anchor stamps {i64::MIN, MIN+1, -2^62-1, -2^62, -1e9-7, -2,-1,0,1,2, 1e9+7, 2^62, 2^62+1, MAX-1, MAX} and random stratified pairs, 5 payload types; latest() and the three replace helpers on the same pairs x slot {empty,full} x candidate {Some,None}; Latest arity 1-5 and SumStream/ProductStream arity 1-4 over every assignment of {absent, rank 1..n}; all two-input streams x 4 presence masks; terminals 16 own/partner presences x connected/unconnected x 11x11 moderate stamp pairs; one update() of each of 12 devices with distinct stamps on every slot; distinct = (site/operator form, payload, stratum of each stamp, order class)",
         assumptions=["the crate only compares timestamps on these paths; terminal/device stamps stay within |t| <= 2^40+3",
                      "ties accept either candidate; candidates have pairwise distinct payload bits (except bool)",
@@ -174,7 +182,7 @@ PROPS = {
                      "Getter<TerminalData> (combined read) is stamped with the state's time by design (C09 statement), so it is only required to carry one of the part stamps here"],
     ),
     "C09": dict(
-        quick_scale=4, thorough_scale=4, run=native, level="fault_enumeration", technique="model-based runtime monitor: partner relation rebuilt from terminal reads alone (twice: from state reads of power-of-two labels and from command reads) and compared with a set-of-pairs model; exhaustive BFS over reachable matchings x operations under panic capture; f64 reference for the read semantics",
+        quick_scale=4, thorough_scale=4, run=native_both_profiles, level="fault_enumeration", technique="model-based runtime monitor: partner relation rebuilt from terminal reads alone (twice: from state reads of power-of-two labels and from command reads) and compared with a set-of-pairs model; exhaustive BFS over reachable matchings x operations under panic capture; f64 reference for the read semantics",
         level_text="Every reachable link state of 2..6 terminals x every connect/disconnect operation is enumerated (breadth-first) and executed on fresh terminals under panic capture, so the operation-sequence part of the quantifier is covered completely up to n=6; the value/timestamp part is sampled. Still only 'held on what was executed'.",
         rule="exhaustive BFS: for n = 2..=6 every one of the 2/4/10/26/76 matchings x every connect(i,j), i!=j, and disconnect(i) x labels written first or last, each edge replayed on fresh terminals; plus random walks of 64 steps on 2..6 terminals and random read-semantics histories of 8..20 steps (set-state, set-command, connect, disconnect) with all three reads of every terminal checked after every step; distinct = (n, matching, operation, variant) / (n, pre-matching, op) / structural shape of the history",
         assumptions=["connect(a,a) is never issued (outside the property)",
@@ -183,7 +191,7 @@ PROPS = {
                      "combined read is checked against the same terminal's own state and command reads taken just before; both Datum.time and TerminalData.time must carry the state's stamp when there is one"],
     ),
     "C14": dict(
-        quick_scale=4, thorough_scale=20, run=native, level=EXPL, technique="f64 reference with forward error bound for the kinematics; exact canonical-bit comparison against plain f32 operators for arithmetic and conversions; exhaustive enumeration of unit, zero-pattern and kind-pair tables; panic capture for the iff-panic clauses",
+        quick_scale=4, thorough_scale=20, run=native_both_profiles, level=EXPL, technique="f64 reference with forward error bound for the kinematics; exact canonical-bit comparison against plain f32 operators for arithmetic and conversions; exhaustive enumeration of unit, zero-pattern and kind-pair tables; panic capture for the iff-panic clauses",
         rule="eight sub-checks, each case a pure function of (seed, stream, case): update (states with 20% +-0 per component, moderate and wide magnitudes, dt stratified in +-1e5 s incl. 0, +-1 ns), update-extreme (any finite triple), setters (49 grid units x 3 Quantity setters + raw setters), state-new (3 slots x 49 units), from-state (all 4^3 patterns of {+0,-0,>0,<0}), cmd-conv, state-arith, cmd-arith (3x3 kind pairs x 9 operator forms); distinct by (sub-check, zero/sign pattern, sign and decade of dt, unit, kind pair)",
         assumptions=["dimension checking compiled in (debug build)",
                      "kinematics reference judged with bound 32*2^-24*sum|terms| plus the i64-ns -> f32-seconds conversion rounding; dt = 0 is the identity on canonical bits (-0 == +0)",
@@ -191,21 +199,21 @@ PROPS = {
                      "in update-extreme (any finite triple) a non-finite result where the true result is representable is a violation; the overflow of intermediates when some term exceeds 1e37 is a listed known finding"],
     ),
     "C15": dict(
-        quick_scale=10, thorough_scale=40, run=native, level=EXPL, technique="model-based random operation sequences against an exact executable model; scripted recording history; fault-injecting getters, clocks and settable; panic capture",
+        quick_scale=10, thorough_scale=40, run=native_both_profiles, level=EXPL, technique="model-based random operation sequences against an exact executable model; scripted recording history; fault-injecting getters, clocks and settable; panic capture",
         rule="three sub-checks: seq (operation sequences <=40 over a recording settable with scripted accept/reject, two scripted getters, a ConstantGetter that is settable/following/followable, four clock kinds), hist (GetterFromHistory over a scripted history recording every queried time, four constructors by quota, three clock kinds, <=40 ops from {get, clock advance/jump/error, set_delta, set_time, update with scripted errors}), adapters (Time as TimeGetter, NoneGetter, TimeGetterFromGetter, ConstantGetter); after every operation result, get_last_request, the impl_set log, get() and the history's query log are compared exactly with the model; distinct = (previous op, op, following state, followed-getter category) / (constructor, clock kind, op bigram, offset class) / event bigrams",
         assumptions=["in hist all clock values, starts, deltas and set_time targets satisfy |x| <= 2^60 so nothing overflows",
                      "a settable whose update() does not call update_following_data forwards nothing on update()",
                      "when the history's own update fails only 'history called once, first' is required (statement silent on the time getter then)"],
     ),
     "C18": dict(
-        quick_scale=4, thorough_scale=20, run=native, level=EXPL, technique="exact i128 integer oracle; exact f64 rational references for the conversions with the statement's own bounds; non-decreasing chains for monotonicity; differential check of the mixed operators against Quantity operators on Quantity::from-converted operands with panic capture on both sides",
+        quick_scale=4, thorough_scale=20, run=native_both_profiles, level=EXPL, technique="exact i128 integer oracle; exact f64 rational references for the conversions with the statement's own bounds; non-decreasing chains for monotonicity; differential check of the mixed operators against Quantity operators on Quantity::from-converted operands with panic capture on both sides",
         rule="seeded generators: i64 operands over bit-lengths 0..62 x sign (plus values next to k*2^24, f32 midpoints, 2^k, whole seconds) with operand pairs built so the i64 result exists; f32 seconds |x| < 9e9 stratified by exponent; 49 grid units x 27 mixed operator cells; exhaustive: |ns| <= 2^16 and +-(2^k+{-1,0,1}) for Time->Quantity, 49 units x try_from, 49 units x 27 mixed cells; distinct = (sub-check or operator group, magnitude stratum and sign of each operand, unit)",
         assumptions=["debug build with dimension checking and overflow checks on; overflow and division by zero are outside the property",
                      "'within 2 ulps' accepts either reading (distance to the correctly rounded f32, or real error); truncation and rounding both accepted for Quantity->Time",
                      "DimensionlessInteger<->Quantity value checks are lenient (statement only loosely covers them)"],
     ),
     "C08": dict(
-        quick_scale=5, thorough_scale=25, run=native, level=EXPL, technique="runtime reference-model monitor: f64 least-squares projection of the states read through the API just before update() (forward error bound), own slots read back with get_last_request; constraint residual and untouched-slot checks; behavioural observation of the tooth-count ratio",
+        quick_scale=5, thorough_scale=25, run=native_both_profiles, level=EXPL, technique="runtime reference-model monitor: f64 least-squares projection of the states read through the API just before update() (forward error bound), own slots read back with get_last_request; constraint residual and untouched-slot checks; behavioural observation of the tooth-count ratio",
         rule="per device (Invert, GearTrain with ratio in +-[1e-2,1e2] via with_ratio_raw / with_ratio, Axle<0..6>, Differential x {Side1,Side2,Sum,Equal,new()}) seeded cases of 1..8 rounds; each round writes new states (distinct increasing stamps) into a random subset of own and connected external terminals (15% of cases with mutually consistent values), then read -> update -> read back; every presence subset of the 2- and 3-terminal devices carries a coverage floor; tooth lists of length 2..6; distinct = (device, presence mask of the reads, round class, consistent?)",
         assumptions=["'states read at its terminals' = Getter<State> on the device's own terminals immediately before update() (mean of own and connected partner), as the statement words it",
                      "forward bound 48*2^-24*sum|terms| per component; largest observed ratio per device reported; 'unchanged' for consistent inputs is within that bound",
@@ -221,7 +229,7 @@ PROPS = {
                      "a monitor process killed by a signal in the poison lane is read as a violation (memory corruption), see props.on_crash"],
     ),
     "C20": dict(
-        thorough_scale=4, run=native, level=EXPL, technique="recording and fault-injecting inner objects at the trait boundary; per-round differential against an oracle computed from the pre-update terminal read; bit-exact twin stand-alone CommandPID with identical wiring; exhaustive single-round grids",
+        thorough_scale=4, run=native_both_profiles, level=EXPL, technique="recording and fault-injecting inner objects at the trait boundary; per-round differential against an oracle computed from the pre-update terminal read; bit-exact twin stand-alone CommandPID with identical wiring; exhaustive single-round grids",
         rule="two exhaustive single-round grids (actuator 384 cells: own/partner state and command present or absent, linked or not, stamp order, inner accept/reject/update-error; encoder 64 cells: getter present/absent/error-1/error-2, inner update ok/error, own slots empty or filled, partner) plus three random families (actuator, encoder, pid) of 1..=32-round histories in which each round delivers a new state and/or command (all three kinds) to the external and/or own terminal or re-links / disconnects them, with scripted reject / update-error / getter present-absent-erroring; distinct = per-round sequence of (what the terminal saw, inner outcome) (+ twin output class for pid)",
         assumptions=["'data the terminal sees' is read from the real terminal with Getter<TerminalData> immediately before update() (merge semantics belong to C03/C09)",
                      "after a failing inner.set the actuator wrapper may either call or skip inner.update() (statement silent); exactly one inner.update() per wrapper update() otherwise",
@@ -229,7 +237,7 @@ PROPS = {
                      "stamps |t| <= 2^40, non-decreasing with repeats; repeated stamps give inf/NaN on both sides and are compared canonically"],
     ),
     "C13": dict(
-        run=native, level=EXPL, technique="model-based runtime oracle (newest issued command, side-mapping table) with exhaustive small-scope enumeration of command-slot assignments and quota-driven random histories and chains; snapshot bit-identity for the differential",
+        run=native_both_profiles, level=EXPL, technique="model-based runtime oracle (newest issued command, side-mapping table) with exhaustive small-scope enumeration of command-slot assignments and quota-driven random histories and chains; snapshot bit-identity for the differential",
         rule="five sub-checks: assign (every assignment of {no command, distinct stamp ranks} to own and connected-external command slots x kind of the newest command, followed by 0-7 random rounds, for Invert, GearTrain via with_ratio_raw / with_ratio / new with 2-6 gears, Axle<1..3>), axle (Axle<1..=6> x each of the 2N slots as holder of the newest command x kind), random (single devices 1-8 rounds), chain (1-5 random Invert/GearTrain/Axle<2> joined by connect in random orientation, command injected at either end, devices updated in travel order, far end and every device exit checked), differential (five constructions x all 64 state-presence masks x 1-8 rounds); distinct = (device/constructor, connection pattern, first-round rank assignment, kind, issuing slot per round) / chain shape / per-round masks",
         assumptions=["the harness is the only issuer of commands and every issued stamp is strictly larger than all earlier ones (equal stamps are outside the quantifier); the premise 'newest command readable before update' is re-confirmed before every update",
                      "inverter/axle values compared exactly on canonical bits; gear values within 4 ulp per device crossed (a command that went /r then *r may differ in the last bit) plus an f64 product cross-check for chains",
